@@ -522,6 +522,7 @@ class Configuration(_Configuration):
         self.operational.clear()
 
     def _rollback_reload(self) -> None:
+        self.neighbor._staged_routes = []
         self.neighbors = self._previous_neighbors
         self.processes = self.process.processes
         self._neighbors = {}
@@ -529,6 +530,8 @@ class Configuration(_Configuration):
 
     def _commit_reload(self) -> None:
         self.neighbors = self.neighbor.neighbors
+        # the configuration is accepted: only now may its routes reach the RIBs the running peers use
+        self.neighbor.apply_staged_routes()
         # Process change detection is handled in Processes.start() which compares
         # old vs new config and only restarts processes that actually changed.
         self.processes = self.process.processes
